@@ -230,3 +230,25 @@ def ops_of_case(case):
         else:
             res.append((k,))
     return res
+
+
+TOL = F(1, 100000)      # precision/work-amount (relative), as System::print() itself checks
+
+
+def snapshot_ints(seg, tol=TOL, wants=None):
+    """encoding for run_alloc_oracle / run_maxmin: enabled elements only; penalty masked to 0 when the requested
+    penalty is 0 (wants given) so that the oracle's 'disabled => value 0' clause also covers suspended variables"""
+    r = q(tol) + [len(seg.cns), len(seg.vars)]
+    for k in seg.cns:
+        r += q(k["bound"]) + [1 if k["shared"] else 0] + elems_ints(k["en"])
+    for v, x in enumerate(seg.vars):
+        pen = x["pen"] if x["alive"] else F(0)
+        if wants is not None and (v >= len(wants) or wants[v] is None or wants[v] <= 0):
+            pen = F(0)
+        r += q(pen) + q(x["bound"] if x["alive"] else F(-1)) + q(x["value"] if x["alive"] else F(0))
+    return r
+
+
+def model_values(ans, nv):
+    vals = [F(ans[2 * i], ans[2 * i + 1]) for i in range(nv)]
+    return vals, ans[2 * nv] == 1
